@@ -729,6 +729,95 @@ def case_state(hist):
 # (rep[["ab"]] = the generator named "ab").  Both are word homomorphisms, elements() agrees with [] in both
 # forms, derived representations follow.
 # ------------------------------------------------------------------------------------------
+# ------------------------------------------------------------------------------------------
+# representations constructed with parse_simple=False: words are '*'-strings of generator names; every derived
+# representation must read them the same way (bound to the list-word answers of an equal default representation)
+# ------------------------------------------------------------------------------------------
+STAR_DERIVED = ["copy", "conjugate", "dual", "astype-complex", "compose:identity", "compose:block_include", "gln_adjoint",
+                "sln_adjoint", "ProjectiveRepresentation"]
+
+
+def case_star(case):
+    from geometry_tools import projective
+    from geometry_tools.representation import Representation
+    from geometry_tools.lie import hom
+    n, names, assign = case["dim"], NAMES[case["names"]], case["assign"]
+    mats = alphabet("gl", n)
+    star, plain = Representation(parse_simple=False), Representation()
+    letters = []
+    for g, k in assign:
+        star[g] = mats[k].copy()
+        plain[g] = mats[k].copy()
+        for x in (g, R.inv_name(g)):
+            if x not in letters:
+                letters.append(x)
+    words = [w for w in R.all_words(letters, 2) if len(w) >= 1]
+    strs = ["*".join(w) for w in words]
+    C = mats[1]
+    subw = {"x": [letters[0], letters[-1]], "y": [letters[-1]]}
+    makers = {
+        "copy": lambda r: Representation(r),
+        "conjugate": lambda r: r.conjugate(C.copy()),
+        "dual": lambda r: r.dual(),
+        "astype-complex": lambda r: r.astype("complex128"),
+        "compose:identity": lambda r: r.compose(lambda M: M),
+        "compose:block_include": lambda r: r.compose(hom.block_include(n + 1)),
+        "gln_adjoint": lambda r: r.gln_adjoint(),
+        "sln_adjoint": lambda r: r.sln_adjoint(),
+        "ProjectiveRepresentation": lambda r: projective.ProjectiveRepresentation(r),
+    }
+    v, t = [], 0
+
+    def mat(x):
+        return np.asarray(x.matrix if hasattr(x, "matrix") else x)
+
+    # the representation itself
+    got = guard(v, "star/elements", lambda: np.asarray(star.elements(strs)))
+    want = np.stack([mat(plain[list(w)]) for w in words])
+    t += 2 * len(words)
+    if got is not None and (got.shape != want.shape or not np.array_equal(got, want)):
+        v.append({"key": "star/elements", "msg": "Representation(parse_simple=False).elements(%r...) differs from the list-word values" % strs[:3]})
+    for name in STAR_DERIVED:
+        if name == "sln_adjoint" and n < 2:
+            continue
+        if name == "subgroup(dict)":
+            ds = guard(v, "star/" + name, lambda: star.subgroup({k: "*".join(w) for k, w in subw.items()}))
+            dp = guard(v, "star/" + name + ":reference", lambda: plain.subgroup({k: list(w) for k, w in subw.items()}))
+            ws, ss = [("x",), ("y",), ("x", "y"), ("Y", "x")], None
+        else:
+            ds = guard(v, "star/" + name, lambda: makers[name](star))
+            dp = guard(v, "star/" + name + ":reference", lambda: makers[name](plain))
+            ws = words
+        if ds is None or dp is None:
+            continue
+        ss = ["*".join(w) for w in ws]
+        got = guard(v, "star/%s:elements" % name, lambda: ds.elements(ss))
+        if got is None:
+            continue
+        t += 2 * len(ws)
+        got = mat(got)
+        want = np.stack([mat(dp[list(w)]) for w in ws])
+        if got.shape != want.shape or not np.max(np.abs(got - want)) <= TOL * (1 + np.max(np.abs(want))):
+            bad = [ss[i] for i in range(len(ws))
+                   if got.shape != want.shape or not np.max(np.abs(got[i] - want[i])) <= TOL * (1 + np.max(np.abs(want[i])))]
+            v.append({"key": "star/derived/%s" % name,
+                      "msg": "%s of a Representation(parse_simple=False) with generators %r: elements(%r) is not the %s of the original image"
+                             % (name, letters, bad[:2], name)})
+    return {"v": v, "t": t, "o": "%s|%d|%d|%s" % (case["names"], n, len(letters), ",".join(sorted(x["key"] for x in v))), "nt": True}
+
+
+def star_cases(q):
+    for names in ("long", "overlap-ab"):
+        low = [g for g in NAMES[names] if g.lower() == g]
+        for n in ((1, 2, 3) if q else (1, 2, 3, 4)):
+            for ks in itertools.permutations(range(NMAT), len(low)):
+                if q and sum(ks) % 3:
+                    continue
+                # every generator assigned, in name order and in reversed order (inverse-first for the last one)
+                yield {"dim": n, "names": names, "assign": [[g, k] for g, k in zip(low, ks)]}
+                yield {"dim": n, "names": names, "assign": [[g, k] for g, k in zip(low[::-1], ks)][:-1] + [[R.inv_name(low[0]), ks[-1]]]}
+
+
 def case_overlap(hist):
     from geometry_tools import projective
     from geometry_tools.representation import Representation
@@ -1137,6 +1226,13 @@ def run(ctx):
                "word length": 4, "words per 2-generator state": nw(4), "roots": len(roots),
                "ops per state": "4 names x the root's matrix subset (24 for the full alphabet)"}
         ctx.bfs("histories", "checks.c05:case_state", roots, depth=2, domains=dom, chunk=8)
+    if want("star-representations"):
+        sc = list(star_cases(q))
+        ctx.product("star-representations", "checks.c05:case_star", sc, chunk=8,
+                    domains={"names": {k: NAMES[k] for k in ("long", "overlap-ab")}, "dimensions": [1, 2, 3] if q else [1, 2, 3, 4],
+                             "assignments": "every injective choice of matrices for the generators (quick: a third of them), in name order and reversed with one inverse-first",
+                             "derived": STAR_DERIVED, "words": "all '*'-strings of length 1..2 over the names and inverses, through elements()",
+                             "oracle": "the same derived representation of an equal Representation() evaluated on LIST words (decided by section histories)"})
     if want("overlapping-names"):
         roots = []
         for names in ("overlap-ab", "overlap-aa"):
